@@ -17,8 +17,9 @@ from pv import lib_sftpfile as L
 
 
 def request_line(p, dflt, maxreq_default, tz):
-    return "prog %sb %d %d %d %d %s %s" % (
+    return "prog %sb %d %d %d %d %d %s %s" % (
         p["mode"], p["bufsize"], dflt, p["maxreq"] or maxreq_default, 1 if tz else 0,
+        0 if p.get("srv_unbuffered") else 1,
         "absent" if p["init"] is None else hx(p["init"]), " ".join(L.op_token(o) for o in p["ops"]))
 
 
@@ -31,7 +32,8 @@ def run_case(ctx, loop, p, reply, req, witness_tag=None):
     """Returns the set of tags to which an oracle divergence was attributed (empty if none)."""
     name = loop.fresh(p["init"])
     try:
-        o1, t1, f1 = L.run_remote(loop, name, p["mode"] + "b", p["bufsize"], p["pipelined"], p["ops"], p["maxreq"])
+        o1, t1, f1 = L.run_remote(loop, name, p["mode"] + "b", p["bufsize"], p["pipelined"], p["ops"], p["maxreq"],
+                                  p.get("srv_unbuffered", False))
         st = state_line(f1) if f1 is not None else ""
         if f1 is not None:
             f1._closed = True  # keep __del__ quiet (a failed close() leaves the file open)
@@ -63,6 +65,8 @@ def run_case(ctx, loop, p, reply, req, witness_tag=None):
     ctx.dist("mode:" + p["mode"])
     ctx.dist("buffering:" + ("unbuffered" if p["bufsize"] <= 0 else "line" if p["bufsize"] == 1 else "sized"))
     ctx.dist("pipelined" if p["pipelined"] else "not-pipelined")
+    ctx.dist("generator:disciplined" if p.get("disciplined") else "generator:hostile")
+    ctx.dist("server-file:" + ("unbuffered" if p.get("srv_unbuffered") else "buffered(StubSFTPServer default)"))
     if reply is None:
         return set()
     parts = [x.strip() for x in reply.split(";")]
@@ -109,12 +113,19 @@ def run_case(ctx, loop, p, reply, req, witness_tag=None):
         if a == "ok" and b.startswith("n:"):
             ctx.fail("tag:returns_none", case, "SFTPFile returned None, the local file returned %s" % b[2:])
             break
+    fired = set()
+    for ts in tags:
+        if ts != "-":
+            fired.update(ts.split(","))
+    if not (fired - EXCLUSION_TAGS):
+        ctx.dist("no-trigger-fired(covered by refines_partial)")
     if div is None:
         return set()
     sticky = set()
     for ts in tags[: div[1] + 1]:
         if ts != "-":
             sticky.update(ts.split(","))
+    sticky -= EXCLUSION_TAGS  # modelling exclusions explain nothing about the real code
     detail = "first divergence at %s (step %d): SFTPFile %s, local file %s; tags %s" % (
         div[0], div[1], (t1 + ["-"])[div[1] - 1][:80] if div[1] else o1, (ta + ["-"])[div[1] - 1][:80] if div[1] else oa,
         sorted(sticky))
@@ -141,6 +152,10 @@ REGRESSIONS = [
     {"mode": "a+", "bufsize": 0, "pipelined": True, "init": b"0123456789abcdef", "maxreq": 4,
      "ops": [("s", 2, 0), ("r", 3), ("w", b"Y"), ("r", None), ("s", 6, 0), ("l", None), ("c",)]},
 ]
+
+
+# triggers that mark a limit of the MODEL (not a defect): never reported as findings
+EXCLUSION_TAGS = {"unmodelled_server_readahead"}
 
 
 def parse_witness(line):
@@ -225,33 +240,39 @@ def run(ctx):
 
 META = {
     "claimed": True,
-    "level": ("PARTIAL. The full statement is false of today's code; the Lean model reproduces the current SFTPFile/"
-              "BufferedFile/SFTPHandle behaviour exactly and every departure from the local-file spec PyFile carries a "
-              "defect tag. Proved: refines_partial — for EVERY request-size limit, buffer size/buffering mode "
-              "(unbuffered, line, sized), file content and EVERY program of write/seek/tell/flush/truncate/close calls "
-              "on a file not opened in append mode, if no defect trigger fires along the run then each call returns "
-              "what the local file returns and the server file equals the local file (exactly once closed, up to the "
-              "unflushed write buffer before) — by a simulation relation (step_refines, rel_init for freshly opened "
-              "files, closed_contents_equal); plus one machine-checked *_witness theorem per remaining tag "
-              "(and legacy_*_witness theorems: the former witnesses of the three repaired defects now refine the spec). Every run: byte-exact correspondence of the "
-              "model with a real SFTPClient/SFTPFile against a real SFTPServer over a loopback (return values, "
-              "exception kinds, final file bytes, _pos/_realpos/_rbuffer/_wbuffer; modes r r+ w w+ a a+ x wx w+x, "
-              "bufsize -1..65536, pipelined or not, MAX_REQUEST_SIZE patched down to force request splitting), "
+    "level": ("PARTIAL (hypothesis: no defect trigger fires). The Lean model reproduces the current SFTPFile/BufferedFile/"
+              "SFTPHandle behaviour exactly and every departure from the local-file spec PyFile carries a defect tag. "
+              "Proved: refines_partial — for EVERY request-size limit, buffer size/buffering mode (unbuffered, line, "
+              "sized), file content, EVERY mode (append included) and EVERY program of read/readline/readlines/write/"
+              "seek/tell/flush/truncate/close calls, if no trigger fires along the run then each call returns what "
+              "the local file returns (modulo returns_none and the exception class) and the server file equals the "
+              "local file (exactly once closed, up to the unflushed write buffer before) — by a simulation relation "
+              "(step_refines; rel_init: freshly opened files are related for any mode string/buffer size; "
+              "closed_contents_equal). The read side composes generic theorems about BufferedFile over any lawful "
+              "stream (PV/Model/ReadGeneric.lean: results are a function of the pending bytes only, with _pos/_realpos "
+              "bookkeeping) with the SFTP instance (READ requests capped at MAX_REQUEST_SIZE, handle offset cache). "
+              "One machine-checked *_witness theorem per remaining tag, and legacy_*_witness theorems showing that "
+              "the former witnesses of the three repaired data-corrupting defects now refine the spec. Every run: "
+              "byte-exact correspondence of the model with a real SFTPClient/SFTPFile against a real SFTPServer over "
+              "a loopback (return values, exception kinds, final file bytes, _pos/_realpos/_rbuffer/_wbuffer; modes "
+              "r r+ w w+ a a+ x wx w+x, bufsize -1..65536, pipelined or not, MAX_REQUEST_SIZE patched down to force "
+              "request splitting; half the programs disciplined = inside the theorem's hypothesis, half hostile), "
               "validation of the PyFile spec against real local files, and the oracle real-SFTPFile-vs-real-local-"
-              "file; a divergence is known iff the model fired a listed tag at or before it, anything else is a "
-              "VIOLATION; every witness is replayed on the real code."),
-    "note": ("NOT proved (tied by correspondence + oracle only): read/readline/readlines inside the refinement (their "
-             "stream semantics over arbitrary short reads is proved for the same BufferedFile code in C42), append-mode "
-             "files. Excluded from generation: truncate after close (server reply to an invalid handle = C30), whence "
-             "outside 0/1/2, offsets >= 2**63, prefetch/readv (C28), >100 outstanding pipelined writes (C29/C30). "
-             "Reads through a server handle that served a READ before a truncate are not modelled (CPython "
-             "BufferedRandom read-ahead inside StubSFTPServer); such runs are compared up to that point. Local "
-             "reference = consensus of unbuffered FileIO and default-buffered file objects; programs where those two "
-             "disagree (a+ after read/seek/write, append after truncate) are outside the spec. Exceptions compare as "
-             "'raises' (IOError vs ValueError/OSError classes differ by design). Trusted: Lean kernel + 3 axioms, "
-             "harness/generators, tests/_stub_sftp.py, CPython file objects. Fixed in /repo: fdf7955 (server "
-             "SFTPHandle append-mode offset cache), e29ecb5 (write after read-ahead), c5093b5 (read with unflushed "
-             "write buffer), 8eeb0a7 (truncate ignores buffers); truncate_zeroes_file fixed by 280deaf (C31). Remaining "
-             "known findings are API-convention differences, listed by tag."),
-    "technique": "Lean 4 proof (simulation/refinement to a local-file spec) + differential correspondence + spec validation",
+              "file; a divergence is known iff the model reproduces the run and fired a listed tag at or before it, "
+              "anything else is a VIOLATION; every witness is replayed on the real code."),
+    "note": ("Remaining triggers (= hypotheses of refines_partial, all listed as known findings, API conventions): "
+             "tell with buffered writes, negative seek accepted, flush/tell/seek on a closed file, truncate on a "
+             "read-only file, truncate in append mode (stale _size), readlines(hint) rounding, readline(0) on an "
+             "unreadable/closed file, mode 'x' without 'w'; plus returns_none (erased in the comparison) and ONE "
+             "modelling exclusion that is not a finding: truncate through a server handle that already served a READ "
+             "(CPython BufferedRandom read-ahead inside StubSFTPServer may be stale; such runs are compared up to that "
+             "point). Excluded from generation: truncate after close (C30), whence outside 0/1/2, offsets >= 2**63, "
+             "prefetch/readv (C28), >100 outstanding pipelined writes (C29/C30). Local reference = consensus of "
+             "unbuffered FileIO and default-buffered file objects; programs where those two disagree (a+ after "
+             "read/seek/write, append after truncate) are outside the spec. Exceptions compare as 'raises'. Trusted: "
+             "Lean kernel + 3 axioms, harness/generators, tests/_stub_sftp.py, CPython file objects. Fixed in /repo "
+             "through this check: fdf7955 (server append-mode offset cache), e29ecb5 (write after read-ahead), c5093b5 "
+             "(read with unflushed write buffer), 8eeb0a7 (truncate ignores buffers); truncate_zeroes_file repaired "
+             "by 280deaf (C31)."),
+    "technique": "Lean 4 proof (simulation/refinement to a local-file spec; generic stream lemmas) + differential correspondence + spec validation",
 }
